@@ -34,6 +34,17 @@ def isLineageMatch : Lineage → Lineage → Nat → Option Nat
     else isLineageMatch as bs rank
   | _, _, _ => some 0
 
+/-- `RankLineageInfo(lineage=a).find_lca(RankLineageInfo(lineage=b))` on lineages along `taxlist()`: the deepest
+    rank filled in both down to which the two lineages are equal, i.e. their longest common prefix (`none` when
+    they differ at the first rank or one is empty) -/
+def commonPrefix : Lineage → Lineage → Lineage
+  | a :: as, b :: bs => if a = b then a :: commonPrefix as bs else []
+  | _, _ => []
+
+def rankLineageLca (a b : Lineage) : Option Lineage :=
+  let p := commonPrefix a b
+  if p.isEmpty then none else some p
+
 /-- `make_lineage("a;b;c")`: split at `;` (at `,` when there is no `;`), zip with `taxlist()` -/
 def makeLineage (names : List Nat) : Lineage := (List.range nRanks).zip names
 
